@@ -210,7 +210,15 @@ func (b *Bubble) release(g *G) {
 // pointDisabled: "auto." in the set switches off every automatically inserted
 // point at once.
 func pointDisabled(set map[string]bool, pt string) bool {
-	return set[pt] || (set["auto."] && strings.HasPrefix(pt, "auto."))
+	if set[pt] || (set["auto."] && strings.HasPrefix(pt, "auto.")) {
+		return true
+	}
+	for k := range set {
+		if strings.HasSuffix(k, "*") && strings.HasPrefix(pt, k[:len(k)-1]) {
+			return true
+		}
+	}
+	return false
 }
 
 func mix(h uint64, s string) uint64 {
